@@ -253,7 +253,32 @@ def given_value(ref, dim, q):
 # --------------------------------------------------------------------------
 
 
+class ApiRaised(Exception):
+    def __init__(self, exc):
+        self.exc = exc
+
+
+_CUR = {}
+
+
+def api(fn, *a, **kw):
+    """call into virocon; an exception there is an outcome of the run, not a harness error"""
+    try:
+        return fn(*a, **kw)
+    except Exception as e:  # noqa: BLE001
+        raise ApiRaised(e)
+
+
 def execute(prop, scen):
+    try:
+        return _execute(prop, scen)
+    except ApiRaised as a:
+        run, op = _CUR["run"], _CUR["op"]
+        run.violate("I0-operation-raises", f"{op['op']}/{type(a.exc).__name__}", {"op": {k_: v_ for k_, v_ in op.items() if k_ != "pin"}, "exc": repr(a.exc)[:300]})
+        return run
+
+
+def _execute(prop, scen):
     import virocon
     from virocon import IFORMContour, variable_transform as vt
 
@@ -270,6 +295,7 @@ def execute(prop, scen):
         ref = Ref(t, uni["kind"])
         run.event("build", uni, [ref.hs, ref.a_par, ref.b_par])
         for si, op in enumerate(scen["ops"]):
+            _CUR["run"], _CUR["op"] = run, op
             k = op["op"]
             if k == "skew":
                 seams.pin_global(op["k"])
@@ -317,7 +343,7 @@ def execute(prop, scen):
                 h = ref.hs_ppf(rng.uniform(0.02, 0.98, op["n"]))
                 tz = np.array([float(ref.tz_ppf(u, hh)) for u, hh in zip(rng.uniform(0.02, 0.98, op["n"]), h)])
                 X = np.column_stack([h, tz])
-                got = np.asarray(t.pdf(X), dtype=float)
+                got = np.asarray(api(t.pdf, X), dtype=float)
                 want = ref.joint_pdf(h, tz)
                 run.count("pdf_comparisons")
                 run.event(k, op["n"], got)
@@ -325,7 +351,7 @@ def execute(prop, scen):
                     run.violate("I2-pdf-is-pushforward", uni["kind"], {"max_rel_dev": float(np.max(np.abs(got / want - 1))), "step": si})
                     return run
             elif k == "draw":
-                x = np.asarray(t.draw_sample(op["n"]))
+                x = np.asarray(api(t.draw_sample, op["n"]))
                 run.event(k, op["n"], x)
                 if x.shape != (op["n"], 2):
                     run.violate("I2-sample-shape", "draw_sample", {"shape": list(x.shape), "n": op["n"], "step": si})
@@ -357,7 +383,7 @@ def execute(prop, scen):
                     continue
                 site = f"dim{dim}"
                 if k == "cond_sample":
-                    x = np.asarray(t.conditional_sample(op["n"], dim, [g], random_state=op["seed"]), dtype=float)
+                    x = np.asarray(api(t.conditional_sample, op["n"], dim, [g], random_state=op["seed"]), dtype=float)
                     run.event(k, [dim, op["given_q"], op["n"], op["seed"]], x)
                     if len(x) != op["n"]:
                         run.violate("I3-conditional-sample-size", site, {"got": len(x), "want": op["n"], "given": g, "step": si})
@@ -383,13 +409,13 @@ def execute(prop, scen):
                             return run
                     # same seed reproduces
                     if op["seed"] is not None and op["n"] <= 20000:
-                        x2 = np.asarray(t.conditional_sample(op["n"], dim, [g], random_state=op["seed"]), dtype=float)
+                        x2 = np.asarray(api(t.conditional_sample, op["n"], dim, [g], random_state=op["seed"]), dtype=float)
                         if not np.array_equal(x, x2):
                             run.violate("I5-seeded-conditional-sample-reproduces", site, {"step": si})
                             return run
                 elif k == "cond_cdf":
                     xs = np.array([float(ref.cond_ppf(q, dim, g)) for q in op["levels"]])
-                    got = np.asarray(t.conditional_cdf(xs, dim, [[g]] * len(xs) if False else [np.array([g])] * len(xs), random_state=op["seed"]), dtype=float)
+                    got = np.asarray(api(t.conditional_cdf, xs, dim, [np.array([g])] * len(xs), random_state=op["seed"]), dtype=float)
                     run.event(k, [dim, op["given_q"], op["levels"]], got)
                     want = ref.cond_cdf(xs, dim, g)
                     tol = eps_dkw(100_000) + m0
@@ -399,7 +425,7 @@ def execute(prop, scen):
                         return run
                 else:
                     ps = np.array(op["p"], dtype=float)
-                    got = np.asarray(t.conditional_icdf(ps, dim, [np.array([g])] * len(ps), precision_factor=op["precision_factor"], random_state=op["seed"]), dtype=float)
+                    got = np.asarray(api(t.conditional_icdf, ps, dim, [np.array([g])] * len(ps), precision_factor=op["precision_factor"], random_state=op["seed"]), dtype=float)
                     run.event(k, [dim, op["given_q"], op["p"]], got)
                     for p_, x_ in zip(ps, got):
                         p_small = p_ if p_ < 0.5 else 1 - p_
@@ -411,7 +437,7 @@ def execute(prop, scen):
                             run.violate("I3-conditional-quantile", site, {"given": g, "p": float(p_), "returned": float(x_), "exact_cdf_at_returned": Fx, "exact_quantile": float(ref.cond_ppf(p_, dim, g)), "tolerance": tol, "n_used": n_used, "step": si})
                             return run
             elif k == "iform":
-                c1 = IFORMContour(t, op["alpha"], n_points=op["n_points"])
+                c1 = api(IFORMContour, t, op["alpha"], n_points=op["n_points"])
                 xy = np.asarray(c1.coordinates, dtype=float)
                 run.event(k, [op["alpha"], op["n_points"]], xy)
                 beta = sts.norm.ppf(1 - op["alpha"])
@@ -443,7 +469,7 @@ def execute(prop, scen):
                     seams.pin_global(op["pin"] + 12345)
                     np.random.random(7)
                     run.count("fault:F3-global-rng-skew")
-                    c2 = IFORMContour(t, op["alpha"], n_points=op["n_points"])
+                    c2 = api(IFORMContour, t, op["alpha"], n_points=op["n_points"])
                     run.count("reproduction_checks")
                     if not np.array_equal(np.asarray(c2.coordinates, dtype=float), xy):
                         dv = np.max(np.abs(np.asarray(c2.coordinates, dtype=float) - xy), axis=0)
